@@ -24,6 +24,12 @@ def run(run):
         run.gen_replay('Gen_Model', 'Gen_Model_sim.cfg', A, {'langs': langs},
                        env={'VERIF_LANG': lang, 'VERIF_DEPTH': 9, 'VERIF_MAXREJ': 0}, simulate=10 ** 9, depth=10,
                        max_cases=n, workers=8, timeout=400 if quick else 2400, name='random behaviours of depth 9 on %s' % lang)
+    # models enumerated directly (accepted calls only, random walks): several links between several assets
+    for lang in ('LSame', 'LDup'):
+        run.gen_replay('Gen_Graph', 'Gen_Graph.cfg', A, {'langs': langs}, env={'VERIF_LANG': lang, 'VERIF_DEPTH': 8, 'VERIF_MAXASSETS': 4,
+                                                                                 'VERIF_MAXASSOCS': 4}, simulate=10 ** 9, depth=9,
+                       max_cases=4000 if quick else 60000, workers=8, timeout=300 if quick else 1800,
+                       name='random model constructions of depth 8 on %s (every prefix is a case)' % lang)
     for lang, depth in (('LDef', 3), ('LTiny', 3), ('LOne', 3)) if quick else (('LDef', 4), ('LTiny', 5), ('LSet', 5), ('LTrans', 5), ('LInh', 3), ('LOne', 4)):
         run.gen_replay('Gen_Graph', 'Gen_Graph.cfg', 'harness.replay_neo_graph', {'langs': langs},
                        env={'VERIF_LANG': lang, 'VERIF_DEPTH': depth}, timeout=1500, name='attack graphs of %s models to depth %d' % (lang, depth))
